@@ -147,9 +147,10 @@ var (
 	// one kind per branch of the dispatch closure of NewStackingContextFromBox: plain block (hoisting passes
 	// through), positioned z-index:auto (in flow / through the AbsolutePlaceholder alias), float, inline-block
 	// (the three "fake" contexts that hand the list of the enclosing real context down), and the two ways of being
-	// a real context at level 0 (so that every item ties with every other: the order is tree order alone)
-	branch7 = []string{"static", "rel", "abs", "float", "iblock", "opacity", "rel+z0"}
-	chain5  = []string{"static", "rel", "float", "iblock", "opacity"}
+	// a real context at level 0 (so that the items tie with each other: their order is tree order alone), plus one
+	// negative level (an item that lands in the list of the wrong context is painted in the wrong layer)
+	branch8 = []string{"static", "rel", "abs", "float", "iblock", "opacity", "rel+z0", "rel+z-1"}
+	chain6  = []string{"static", "rel", "float", "iblock", "opacity", "rel+z-1"}
 	small8  = []string{"static", "rel", "float", "iblock", "opacity", "rel+z-1", "rel+z0", "rel+z1"}
 	mid12   = []string{"static", "rel", "abs", "float", "iblock", "inline", "opacity", "overflow", "rel+z-1", "rel+z0", "rel+z1", "rel+z2"}
 	mid32   = []string{"static", "rel", "abs", "float", "iblock", "inline", "cell", "z-2", "z-1", "z0", "z1", "z2", "opacity", "transform", "overflow", "outline",
@@ -197,9 +198,12 @@ func (c *check) build(tier string) {
 	// arrangement of 3 boxes and on every arrangement of 4 boxes with two or three levels of nesting: a
 	// positioned / context-forming box inside one or two nested fake contexts (positioned z-index:auto, float,
 	// inline-block) or plain boxes, with and without earlier and later items in the same real stacking context
-	b7 := kindsOf(branch7...)
-	add("nested dispatch: 3 boxes, 7 dispatch-branch kinds", shapes(3, 2), rep(b7, 3))
-	add("nested dispatch: 4 boxes, two or three levels of nesting, 7 dispatch-branch kinds", deeper(shapes(4, 3), 2), rep(b7, 4))
+	b8 := kindsOf(branch8...)
+	add("nested dispatch: 3 boxes, 8 dispatch-branch kinds", shapes(3, 2), rep(b8, 3))
+	add("nested dispatch: 4 boxes, two or three levels of nesting, 8 dispatch-branch kinds", deeper(shapes(4, 3), 2), rep(b8, 4))
+	if tier == "thorough" {
+		add("nested dispatch: 5 boxes, two to four levels of nesting, 6 kinds", deeper(shapes(5, 4), 2), rep(kindsOf(chain6...), 5))
+	}
 	add("2 boxes, every kind (≤ 2 deviations per box)", shapes(2, 1), rep(all, 2))
 	if tier == "thorough" {
 		m32, c16k := kindsOf(mid32...), kindsOf(core16...)
@@ -211,7 +215,6 @@ func (c *check) build(tier string) {
 			add(fmt.Sprintf("3 boxes, box %c any of the other %d kinds, the others 16 core kinds", 'A'+j, len(rest)), shapes(3, 2), l)
 		}
 		add("4 boxes, 12 kinds", shapes(4, 3), rep(kindsOf(mid12...), 4))
-		add("nested dispatch: 5 boxes, two to four levels of nesting, 5 kinds", deeper(shapes(5, 4), 2), rep(kindsOf(chain5...), 5))
 	} else {
 		add("3 boxes, 16 core kinds", shapes(3, 2), rep(kindsOf(core16...), 3))
 		add("4 boxes, 8 kinds, one level of nesting", shapes(4, 1), rep(kindsOf(small8...), 4))
@@ -255,7 +258,7 @@ func (c *check) Init(tier string, seed int64) engine.Space {
 	}
 	return engine.Space{
 		Units: c.units, Chunk: 48, Level: "model_checking", CaseCPUs: 8,
-		Rule: "sub-spaces in the listed order, the small families first (a run cut by its deadline loses the tail of the order): (family many-siblings: every listed sibling count × z-index pattern × positioning × nesting; expected order = stable sort by z-index, tree order among ties) + (family nested dispatch: one kind per branch of the dispatch closure of NewStackingContextFromBox on every arrangement of 3 boxes and every arrangement of 4 (thorough: 5) boxes with ≥ 2 levels of nesting: positioned and context-forming boxes inside nested fake contexts, with earlier and later items of the same real stacking context, every item at level 0) + deviation-bounded product: every arrangement (pre-order forest of 2–4 boxes under body) × every assignment of a kind (set of ≤ 2 deviations from the menu) to every box, kinds listed simplest first; arrangements with an in-flow block-level child of a display:inline box are outside the alphabet and skipped (counted); a case is non-trivial when the Appendix E order differs from document order; transitions = edges of the deviation lattice (deviations present in the case)",
+		Rule: "sub-spaces in the listed order, the small families first (a run cut by its deadline loses the tail of the order): (family many-siblings: every listed sibling count × z-index pattern × positioning × nesting; expected order = stable sort by z-index, tree order among ties) + (family nested dispatch: one kind per branch of the dispatch closure of NewStackingContextFromBox on every arrangement of 3 boxes and every arrangement of 4 (thorough: 5) boxes with ≥ 2 levels of nesting: positioned and context-forming boxes inside nested fake contexts, with earlier and later items of the same real stacking context, levels 0 (ties) and −1) + deviation-bounded product: every arrangement (pre-order forest of 2–4 boxes under body) × every assignment of a kind (set of ≤ 2 deviations from the menu) to every box, kinds listed simplest first; arrangements with an in-flow block-level child of a display:inline box are outside the alphabet and skipped (counted); a case is non-trivial when the Appendix E order differs from document order; transitions = edges of the deviation lattice (deviations present in the case)",
 		Bounds: map[string]any{
 			"deviation_menu": devName[:], "deviation_css": devCSS[:], "sub_spaces": bs, "max_deviations_per_box": 2,
 		},
